@@ -32,7 +32,7 @@ open Str Router
 /-- `false` = /repo HEAD as described above.  `true` = the repair of hooks/C07-fix-h2c-stream-auth.patch:
     the handler given to `h2c.NewHandler` does, for every request it is handed, what `ServeHTTP` does
     (`injectRequestInfoToCtx` + `CheckAuth` for the request's own route, 401 / 404 / forward). -/
-def h2cStreamsChecked : Bool := false
+def h2cStreamsChecked : Bool := true
 
 inductive StreamResp
   | rst                       -- http2 server: `url.ParseRequestURI(:path)` fails → RST_STREAM(PROTOCOL_ERROR), no handler runs
